@@ -617,6 +617,10 @@ func signChanges() []change {
 	add("expiry-same-second-other-zone", false, -1, func(r *areq) { r.Expiry = r.Time.Add(400 * time.Millisecond).In(time.FixedZone("n", 3600)) })
 	add("expiry-before", false, -1, func(r *areq) { r.Expiry = r.Time.Add(-time.Hour) })
 	add("expiry-next-second", true, -1, func(r *areq) { r.Expiry = r.Time.Truncate(time.Second).Add(time.Second + 5) })
+	add("expiry-year-9999", true, -1, func(r *areq) { r.Expiry = time.Date(9999, 12, 31, 23, 59, 59, 0, time.UTC) })
+	add("expiry-year-2300", true, -1, func(r *areq) { r.Expiry = time.Date(2300, 1, 1, 0, 0, 0, 0, time.UTC) })
+	add("expiry-year-2640", true, -1, func(r *areq) { r.Expiry = time.Date(2640, 1, 2, 3, 4, 5, 0, time.UTC) })
+	add("expiry-2262-04-12", true, -1, func(r *areq) { r.Expiry = time.Date(2262, 4, 12, 0, 0, 0, 0, time.UTC) })
 	add("expiry-none", true, -1, func(r *areq) { r.Expiry = time.Time{} })
 	add("scheme-empty", false, -1, func(r *areq) { r.Scheme = "" })
 	add("scheme-other", false, -1, func(r *areq) { r.Scheme = "notary.x509.something" })
@@ -669,6 +673,8 @@ func signChanges() []change {
 	A("attr-number-beyond-2^53", true, 0, aattr{akey{Kind: "text", Text: "x.big"}, false, uint64(12345678901234567890)})
 	A("attr-notary-namespace", true, -1, aattr{akey{Kind: "text", Text: "io.cncf.notary.verificationPlugin"}, true, "com.example.plugin"}, aattr{akey{Kind: "text", Text: "io.cncf.notary.verificationPluginMinVersion"}, false, "1.0.0"})
 	A("attr-looks-like-spec", true, -1, aattr{akey{Kind: "text", Text: "io.cncf.notary.expiryDate"}, false, "x"}, aattr{akey{Kind: "text", Text: "algorithm"}, true, "y"})
+	A("attr-case-fold-pair", true, -1, aattr{akey{Kind: "text", Text: "BuildID"}, false, "a"}, aattr{akey{Kind: "text", Text: "buildid"}, true, "b"})
+	A("attr-case-fold-pair-2", true, -1, aattr{akey{Kind: "text", Text: "com.example.Tag"}, true, int64(1)}, aattr{akey{Kind: "text", Text: "COM.EXAMPLE.TAG"}, false, int64(2)})
 	A("attr-dup-text", false, -1, aattr{akey{Kind: "text", Text: "dup.key"}, false, "a"}, aattr{akey{Kind: "text", Text: "dup.key"}, true, "b"})
 	for _, k := range []string{"alg", "cty", "crit", kExp, kST, kScheme, kAST} {
 		k := k
